@@ -30,6 +30,8 @@ func cmdSelftest(args []string) int {
 		{"SelfPoolUse", "SHAREDWRITE:read", ""},
 		{"SelfPoolOK", "", "R:done"},
 		{"SelfUnlockedWrite", "SHAREDWRITE:store", ""},
+		{"SelfFmtVerb", "", "R:done"},
+		{"SelfFmtRecursion", "UNWIND:", ""},
 	}
 	fail := 0
 	for _, c := range cases {
